@@ -197,6 +197,13 @@ def run_case(case, rng):
         from mon import defaults as Dflt
         Dflt.in_force(case, "EntropyRegularizedPolicyIteration", EntropyRegularizedPolicyIteration(), passed={})
         wplanner = EntropyRegularizedPolicyIteration(entropy_weight=w, **kw_)
+        if rng.random() < 0.4:
+            # a SECOND planner object with another temperature (and the default prior) is created, and used, while this one is alive
+            w_other = rng.choice([x for x in (0.05, 0.3, 2.0, 20.0) if x != w])
+            other_planner = EntropyRegularizedPolicyIteration(entropy_weight=w_other)
+            if rng.random() < 0.5:
+                case.call("plan_on(another planner object)", other_planner.plan_on, mdp)
+            case.count("planner_objects_alive_side_by_side")
         if rng.random() < 0.3:
             # the same planner object first plans on an unrelated MDP (other sizes, its own default prior)
             osp = G.random_spec(rng, "any", n_max=4, a_max=3, uniform_actions=True, allow_live_absorbing=False,
